@@ -112,7 +112,7 @@ def _run_job(exe, job, known, workdir):
     return {"job": job, "rc": r.returncode, "stderr": brief(r.stderr), "crash_sig": sig, "result": res, "out": out, "wall": time.time() - t0}
 
 
-def run_unit(pid, meta, tier, seed, replay=None):
+def run_unit(pid, meta, tier, seed, replay=None, finish=True):
     out = Outcome(pid, tier, seed, meta)
     known_open, _ = load_known(pid)
     known = set(known_open)
@@ -254,7 +254,7 @@ def run_unit(pid, meta, tier, seed, replay=None):
         need = int(tp.get("prop_shards", {}).get(ei["prop"], shards))
         out.exhaustive = bool(lab.get(ei["label"], 0) >= need and not lab.get(ei.get("not_label", ""), 0)
                               and not out.violations)
-    return out.finish()
+    return out.finish() if finish else out
 
 
 def run_fuzz(pid, meta, tp, seed, known, out):
